@@ -25,6 +25,22 @@ def codes_of(*funcs):
     return out
 
 
+import os as _os
+_NO_RAISE = bool(_os.environ.get("FAILPOINT_NO_RAISE"))   # diagnosis only: count and "fire" without raising
+
+
+# Before 3.12 the failpoint is an exception raised *by the sys.settrace callback* at a line event.  CPython 3.11
+# has been seen to segfault inside its own tracing/`dis` code after some 10^5 such raises in one process (with
+# the raise suppressed the same workload runs clean; see DESIGN.md), so workloads on those interpreters stop
+# injecting once a per-process budget is used up.  3.12+ uses sys.monitoring and has no such limit.
+RAISED_FROM_TRACE_FUNCTION = [0]
+SETTRACE_RAISE_BUDGET = 25000
+
+
+def injection_budget_left():
+    return sys.version_info >= (3, 12) or RAISED_FROM_TRACE_FUNCTION[0] < SETTRACE_RAISE_BUDGET
+
+
 class InjectedFault(Exception):
     """unique instances; identity is what the oracle looks for"""
 
@@ -63,7 +79,9 @@ class LineFailpoints(object):
             if self.target is not None and self.count == self.target and not self.fired:
                 self.fired = True
                 self.fired_at = (frame.f_code.co_name, frame.f_lineno)
-                raise self.exc
+                if not _NO_RAISE:
+                    RAISED_FROM_TRACE_FUNCTION[0] += 1
+                    raise self.exc
         return self._loc
 
     def call(self, fn, k=None, exc=None):
